@@ -240,7 +240,7 @@ func enumerateAll(thorough bool, emit func(gen.NestedOpt)) {
 		})
 		for _, dsse := range []bool{false, true} {
 			for _, single := range []bool{false, true} {
-				for _, cs := range []string{"both-complete", "second-directory-missing", "second-directory-without-links"} {
+				for _, cs := range []string{"both-complete", "second-directory-missing", "second-directory-without-links", "second-directory-differs"} {
 					emit(gen.NestedOpt{Depth: 2, DSSE: dsse, Delegate: "authorised", ParentRules: "match", SingleStep: single, CoSub: cs, Entry: entry,
 						Expired: T.Add(-time.Hour).Format("2006-01-02T15:04:05Z")})
 				}
@@ -293,7 +293,7 @@ func replay(c *mcx.Ctx, raw json.RawMessage) (string, string) {
 func init() {
 	mcx.Register(&mcx.Driver{
 		ID: "C08", Run: run, Replay: replay,
-		Rule: "full product over a generated family of nested supply chains: nesting depth 2 (thorough: + 3) x deepest layout with two steps or one step x with/without a second delegation by another functionary x with/without a second authorised functionary delivering a plain link for the delegated step (threshold 1 / 2) x with/without a foreign signature in front of the delegate's on the sublayout x who offers the level-2 layout {authorised, defined but not listed for the step, foreign, authorised for the preceding step only} x parent rules {matching the summary, violated by it} x defect {none, sublayout signed by another key, signature corrupted, expired (owned clock), link missing / tampered / by an unauthorised key, rule violated, threshold unmet} x level of the defect 1..depth x {legacy, DSSE} x {InTotoVerify, InTotoVerifyWithDirectory with a run directory that is not the link directory}; plus, for a threshold-2 step, the same sublayout handed in by two functionaries with both directories complete, the second missing, the second without links; " +
+		Rule: "full product over a generated family of nested supply chains: nesting depth 2 (thorough: + 3) x deepest layout with two steps or one step x with/without a second delegation by another functionary x with/without a second authorised functionary delivering a plain link for the delegated step (threshold 1 / 2) x with/without a foreign signature in front of the delegate's on the sublayout x who offers the level-2 layout {authorised, defined but not listed for the step, foreign, authorised for the preceding step only} x parent rules {matching the summary, violated by it} x defect {none, sublayout signed by another key, signature corrupted, expired (owned clock), link missing / tampered / by an unauthorised key, rule violated, threshold unmet} x level of the defect 1..depth x {legacy, DSSE} x {InTotoVerify, InTotoVerifyWithDirectory with a run directory that is not the link directory}; plus, for a threshold-2 step, the same sublayout handed in by two functionaries with both directories complete, the second missing, the second without links, the second complete but reporting another product; " +
 			"each under every order of the sublayout loops and the counting loop (thorough: + one deviation elsewhere). Every layout carries a marker inspection. quick keeps unauthorised delegations to defect-free chains. non-trivial = anything but the plain honest 2-step nesting. states = cases, transitions = choice points.",
 		Assumptions: []string{"the verdict is known by construction; REQUIRE rules in every parent make an empty or wrong summary visible", "sublayouts delegated to a certificate functionary are outside the family (don't-care)"},
 	})
